@@ -30,7 +30,7 @@ FAIL_PATTERNS = [
     'could not prove termination', 'decreases not satisfied', 'loop invariant',
     'possible bit shift underflow/overflow', 'unable to prove assertion safety condition',
     'constructed value may fail to meet its declared type invariant',
-    'failed to prove', 'cannot show',
+    'failed to prove', 'cannot show', 'unable to prove',
 ]
 UNDECIDED_PATTERNS = ['rlimit', 'Resource limit', 'resource limit', 'timed out', 'canceled']
 
